@@ -1296,9 +1296,13 @@ func (l *Loop) decode(d *decoder) {
 	}
 	l.vertices = make([]Point, nvertices)
 	for i := range l.vertices {
-		l.vertices[i].X = d.readFloat64()
-		l.vertices[i].Y = d.readFloat64()
-		l.vertices[i].Z = d.readFloat64()
+		l.vertices[i].X = d.readCoordinate()
+		l.vertices[i].Y = d.readCoordinate()
+		l.vertices[i].Z = d.readCoordinate()
+	}
+	if d.err != nil {
+		l.vertices = nil
+		return
 	}
 	l.index = NewShapeIndex()
 	l.originInside = d.readBool()
